@@ -320,6 +320,7 @@ def run_property(prop, tier, seed, workers=None, replay=None, keep_logs=False, q
         inconclusive=inconclusive,
         workers=dict(n=nworkers, truncated_by_budget=truncated, crashed=len(crashed)),
         build=dict(flavour=flavour, overlay=overlay_dir, rebuilt=binfo["built"],
+                   in_tree_binaries_used_because_pyx_changed=binfo.get("prebuilt_in_tree_binaries_used", []),
                    modules_loaded_from_overlay=sorted({m for d in dones for m in d.get("overlay", {})})),
         sanitizer=dict(groups=san_info, leads=san_leads),
         exhaustive=bool(getattr(mod, "EXHAUSTIVE", {}).get(tier, False)) and not truncated,
